@@ -304,12 +304,13 @@ def explore_object(fam_name, spec, depth, res):
     ops = ["regen", "tamper:schema+1", "tamper:noschema", "tamper:record"]
     for name, values in fam.options_menu.items():
         ops += [f"opt:{name}={i}" for i in range(len(values))]
-    start = (text0, defaults, None)
-    seen = {(_digest(text0), defaults, None)}
+    # state = (saved text, current option vector, tamper flag, option vector the text was saved under)
+    start = (text0, defaults, None, defaults)
+    seen = {(_digest(text0), defaults, None, defaults)}
     frontier = collections.deque([((), start)])
     transitions = 0
     while frontier:
-        hist, (text, vector, tamper) = frontier.popleft()
+        hist, (text, vector, tamper, saved_under) = frontier.popleft()
         if len(hist) >= depth:
             continue
         for op in ops:
@@ -324,7 +325,7 @@ def explore_object(fam_name, spec, depth, res):
                 new_vector = vector[:position] + (fam.options_menu[name][int(index)],) + vector[position + 1:]
                 if new_vector == vector:
                     continue
-                state = (text, new_vector, tamper)
+                state = (text, new_vector, tamper, saved_under)
             elif op.startswith("tamper:"):
                 data = as_json.loads(text)
                 if op == "tamper:schema+1":
@@ -333,7 +334,7 @@ def explore_object(fam_name, spec, depth, res):
                     data.pop(fam.schema_key)
                 else:
                     data[fam.record_key] = "some_other_record"
-                state = (as_json.dumps(data), vector, op)
+                state = (as_json.dumps(data), vector, op, saved_under)
             else:
                 res.evals += 1
                 res.nontrivial += 1
@@ -362,25 +363,26 @@ def explore_object(fam_name, spec, depth, res):
                         res.buckets["regen:refused-tampered"] += 1
                     continue
                 if refused is not None:
-                    if vector == defaults:
+                    if vector == saved_under:
                         res.fail(case, "regeneration-refused-under-same-settings", refused)
                     else:
                         res.buckets["regen:option-changed-refused"] += 1
                     continue
                 new_text = save(regenerated)
-                if vector == defaults:
+                if vector == saved_under:
                     if new_text != text:
                         res.fail(case, "resaved-json-differs", _first_diff(text, new_text))
                     else:
                         res.buckets["regen:identical"] += 1
-                    if applied_effect != effect0:
-                        res.fail(case, "record-effect-differs", K_diff(effect0, applied_effect))
+                    reference_effect = fresh_under(vector)[1]
+                    if applied_effect != reference_effect:
+                        res.fail(case, "record-effect-differs", K_diff(reference_effect, applied_effect))
                     else:
                         res.buckets["effect:compared"] += 1
                 else:
                     fresh_text, fresh_effect = fresh_under(vector)
-                    acceptable = {fresh_text, text0} if fam.ignorable(vector) else {fresh_text}
-                    if new_text == text0 and fam_name == "rules":
+                    acceptable = {fresh_text}
+                    if new_text == text and fam_name == "rules":
                         # hmm detection documents the strictness option as ignored (with a warning) when reusing results
                         res.buckets["regen:option-changed-accepted"] += 1
                     elif new_text not in acceptable:
@@ -389,8 +391,8 @@ def explore_object(fam_name, spec, depth, res):
                         res.buckets["regen:option-changed-accepted"] += 1
                         if fresh_effect is not None and applied_effect != fresh_effect:
                             res.fail(case, "record-effect-differs-from-fresh-run", K_diff(fresh_effect, applied_effect))
-                state = (new_text, vector, None)
-            key = (_digest(state[0]), state[1], state[2])
+                state = (new_text, vector, None, vector if fam_name != "rules" else saved_under)
+            key = (_digest(state[0]), state[1], state[2], state[3])
             if key not in seen:
                 seen.add(key)
                 frontier.append((new_hist, state))
